@@ -110,6 +110,18 @@ CLAIMS = {
         "technique": "contract-based deductive verification: VCs from go/ssa discharged by SMT; table/flow obligations decided on the SSA",
         "design_ref": "DESIGN.md §6 C16",
     },
+    "C08": {
+        "level": "Proof that generateEnumType's carrier type is exactly the Go type of every value in the table it emits (so reflect.DeepEqual can succeed), that mixed/null lists are wrapped, that string enums get their constants, that an empty list is an error wherever the enum sits (generateEnumType, generateTypeInline, generateType arms), that --only-models adds no code, plus the format-string sweep (enum literals are arguments, never formats).",
+        "note": "Partial: reflect.DeepEqual, litter's rendering of the table and marshal-back are external and not covered.",
+        "technique": "contract-based deductive verification: VCs from go/ssa discharged by SMT; flow obligations decided on the SSA",
+        "design_ref": "DESIGN.md §0 and §6 C08",
+    },
+    "C20": {
+        "level": "Proof of the routing leaves: beginOutput (reuse only on same file AND same package; same file + other package is an error; otherwise a new output with exactly the requested names registered under the id; both map iteration orders) and findOutputFileForSchemaID (known id keeps its output; mapped id goes to its mapping; else defaults); newSchemaGenerator gives each document its own ref map; data-flow obligations in generateReferencedType; mapping assembly (stringSliceToStringMap, per-id mapping loop).",
+        "note": "Partial: exactly-once emission and cross-package qualification inside generateReferencedType are glue; concrete scenario outputs (at most 2 outputs, 2 mappings).",
+        "technique": "contract-based deductive verification: VCs from go/ssa discharged by SMT; flow obligations decided on the SSA",
+        "design_ref": "DESIGN.md §0 and §6 C20",
+    },
 }
 
-NOT_APPLICABLE = {p: PENDING for p in ["C08", "C20"]}
+NOT_APPLICABLE = {p: PENDING for p in []}
